@@ -126,6 +126,23 @@ func Init(machines ...MachineProvider) *FSMPool {
 		}
 	}
 
+	// Final states which no other machine continues from (canceled by participant, by timeout, ...)
+	// belong to the machine that reached them, so that a dumped round can always be restored.
+	for _, machine := range machines {
+		finStatesProvider, ok := machine.(interface{ FinStatesList() []fsm.State })
+		if !ok {
+			continue
+		}
+		for _, state := range finStatesProvider.FinStatesList() {
+			if state == fsm.StateGlobalDone {
+				continue
+			}
+			if _, exists := p.states[state]; !exists {
+				p.states[state] = machine.Name()
+			}
+		}
+	}
+
 	if p.fsmInitialEvent == "" {
 		panic("machines pool entry event not set")
 	}
